@@ -48,8 +48,8 @@ def main():
 
     demo_files = os.listdir(os.path.join(dest, "demo"))
     demo_cmd = agent_meta.get("demo_command", "cargo test -p falcon-rust --test seeded_demo --offline")
-    demo_cmd = re.sub(r"cd\s+/tmp/seed2?/C\d+\s*&&\s*", "", demo_cmd)
-    demo_cmd = re.sub(r"/tmp/seed2?/C\d+", repo, demo_cmd)
+    demo_cmd = re.sub(r"cd\s+/tmp/seed\d*/C\d+\s*&&\s*", "", demo_cmd)
+    demo_cmd = re.sub(r"/tmp/seed\d*/C\d+", repo, demo_cmd)
     demo_cmd = re.split(r"\s{2,}\(|\s\((?=[a-z])", demo_cmd)[0].strip()   # drop trailing prose in parentheses
     if "--offline" not in demo_cmd:
         demo_cmd += " --offline"
